@@ -64,7 +64,7 @@ PROPS = {
 
 # Per-property claim texts for MANIFEST.json (defaults apply where absent).
 TEXT = {
-    "C13": {"text": "happens-before (vector clock) race detection over every explored schedule (<= P preemptions) of the concurrent scenarios of C02/C06/C08/C17; a race between two accesses unordered on some explored schedule is reported even if that schedule did not make them adjacent; replay through go test -race",
+    "C13": {"text": "happens-before (vector clock) race detection over every explored schedule (<= P preemptions) of the concurrent scenarios of C02/C05/C06/C08/C10/C11/C17, of the time-driven operators with a producer thread racing the clock, and of the float precision operators on their math/big path; a race between two accesses unordered on some explored schedule is reported even if that schedule did not make them adjacent; replay through go test -race",
             "technique": "symbolic execution of go/ssa with explicit threads, vector-clock happens-before tracking, preemption-bounded schedule enumeration"},
     "C16": {"note": "time is a symbolic logical clock (durations in (0,2^40] ns, gaps symbolic); native replay of time-dependent counterexamples requires the virtual-time shim; stubs as listed in the evidence"},
 }
